@@ -127,7 +127,7 @@ func c20(e *Env) {
 			refuse   bool
 		}
 		bs := []bnd{{"30s", "60s", "1", false}, {"60s", "60s", "1", true}, {"61s", "60s", "1", true}, {"59999ms", "60s", "1", false}, {"1s", "1001ms", "2", false},
-			{"1h", "30m", "1", true}, {"30s", "60s", "0", true}, {"30s", "60s", "-1", true}, {"30s", "60s", "3", false}, {"0s", "1ns", "1", false}, {"10s", "10s", "2", true}}
+			{"1h", "30m", "1", true}, {"30s", "60s", "0", true}, {"30s", "60s", "-1", true}, {"30s", "60s", "3", false}, {"999ms", "1s", "1", false}, {"10s", "10s", "2", true}}
 		b := bs[idx%len(bs)]
 		cc.opts["heartbeat-interval"], cc.opts["idle-timeout"], cc.opts["num-conns"] = b.hb, b.idle, b.conns
 		cc.refuse = b.refuse
